@@ -5,7 +5,7 @@ use super::{
     TraitHandler,
 };
 use crate::{
-    common::{ident_index::IdentOrIndex, r#type::dereference_changed},
+    common::{ident_index::IdentOrIndex, r#type::{dereference, dereference_stars}},
     Trait,
 };
 
@@ -69,17 +69,15 @@ impl TraitHandler for DerefStructHandler {
             };
 
             let ty = &field.ty;
-            let (dereference_ty, is_ref) = dereference_changed(ty);
+            let dereference_ty = dereference(ty);
 
             target_token_stream.extend(quote!(#dereference_ty));
 
             let field_name = IdentOrIndex::from_ident_with_index(field.ident.as_ref(), index);
 
-            deref_token_stream.extend(if is_ref {
-                quote! (self.#field_name)
-            } else {
-                quote! (&self.#field_name)
-            });
+            let stars = dereference_stars(ty, 0);
+
+            deref_token_stream.extend(quote! (& #stars self.#field_name));
         }
 
         let ident = &ast.ident;
